@@ -5,7 +5,7 @@
     of eager / jax.jit / constructor-jit / jax.disable_jit evaluation.  That clause is decided
     by correspondence only (vf/props/C19.py). *)
 From Coq Require Import List Bool Arith ZArith.
-From SV Require Import C19.Cache C19.TVNorm C19.Loss C19.Random C19.Defaults C19.SharedDefault C19.Reattach.
+From SV Require Import C19.Cache C19.TVNorm C19.Loss C19.Random C19.Defaults C19.SharedDefault C19.Reattach C19.ParamState.
 Import ListNotations.
 
 (** (1) Cache transparency, abstract.  For every object whose calls consult / refresh a keyed
@@ -195,6 +195,18 @@ Theorem C19_reattach_state_function_of_current :
 Proof. exact reattach_spec. Qed.
 Print Assumptions C19_reattach_state_function_of_current.
 
+(** (7) A method that reads the object when it is called (Functional.grad = scico.grad of the
+    bound __call__, Loss.__call__, Loss.prox): for EVERY history of calls and public parameter
+    updates (Loss.set_scale), a call returns what a fresh object in the current state returns.
+    The same method behind a trace cache (jax.jit of a closure over self) does not:
+    ParamState.traced_refuted. *)
+Theorem C19_result_function_of_current_state :
+  forall (St X R : Type) (F : St -> X -> R) (h : list (pop St X)) (st : St) (x : X),
+    run_real St X R F st (h ++ [PCall St X x])
+    = run_real St X R F st h ++ run_real St X R F (state_after St X st h) [PCall St X x].
+Proof. exact real_result_function_of_current_state. Qed.
+Print Assumptions C19_result_function_of_current_state.
+
 (** ---- non-vacuity ---- *)
 (* a history with changing shapes and dtypes through the fixed logic: rebuilds happen, results are fresh *)
 Example C19_tv_example :
@@ -245,3 +257,9 @@ Example C19_helper_content_example :
   (let w := hrun Z 100%Z PerCall [HConstruct Z; HConstruct Z; HWrite Z 0 1%Z] (hempty Z) in
    hread Z 100%Z w 0 = 1%Z /\ hread Z 100%Z w 1 = 100%Z).
 Proof. split; [apply hwf_empty|]. vm_compute. split; reflexivity. Qed.
+
+(* grad(x); set_scale(2); grad(x): reading the object at call time gives [3; 6], a trace cache [3; 3] *)
+Example C19_param_state_example :
+  run_real Z Z Z Z.mul 1%Z ps_witness = [3%Z; 6%Z] /\
+  run_traced Z Z unit Z Z.mul (fun _ => tt) (fun _ _ => true) [] 1%Z ps_witness = [3%Z; 3%Z].
+Proof. vm_compute. split; reflexivity. Qed.
